@@ -19,9 +19,10 @@ META = {
              'copy-derived e_tag match, for EncryptedStore size and AES-tag count, decryptability is checked end to end by '
              'reading through the real wrapper); FaultStore and InMemory from /repo. Modelled: moka\'s per-key compute '
              'section as a mutex, generation freshness as a premise. Concurrency of GC with writers is proved on the '
-             'transition system; on the implementation it is exercised sequentially, after every crash, and in the one critical '
-             'schedule (writers parked between payload write and pointer switch while the collector runs) — other schedules are not '
-             'enumerated (partial).'),
+             'transition system (incl. the mark snapshot: exempting keys without a commit point at mark time from the re-check is refuted); '
+             'on the implementation every backend call of the collector and of one writer (put / copy / multipart / delete, new key '
+             'and overwrite) is a scheduling point (issue and answer of reads) and their interleavings are enumerated depth-first '
+             '(bounded in the quick tier, plus random schedules); two writers x GC only in the parked-at-pointer-switch schedule (partial).'),
     'technique': 'Coq proof (commit-point theory per key, transition-system invariant) + translator-generated call orders + certified monitor over FaultStore mutation logs + exhaustive crash-point exploration',
 }
 
@@ -40,7 +41,9 @@ def run(ck):
                'payload sizes around the chunk size, planted legacy objects, orphan generations and foreign objects) x 5 wrapper '
                'configurations (MetaStore, EncryptedStore chunk 1/7/16/65536); every k: crash after the k-th inner mutation, cold '
                'restart, read/list/head every key, collect_garbage, read again; plus GC-race scenarios: 1-2 writers (put overwrite / put new / copy / multipart) parked '
-               'at their pointer switch while collect_garbage runs to completion; non-trivial = a distinct (sequence, crash point) '
+               'at their pointer switch while collect_garbage runs to completion; plus enumerated interleavings of all backend calls of one '
+               'writer (6 shapes) with all backend calls of collect_garbage (mark listing, per-key reads, gen/ and data/ listings, re-checks, '
+               'deletes), both wrappers; non-trivial = a distinct (sequence, crash point) '
                'whose interrupted operation changes the key (old != new)')
     ck.translate()
     ck.coq(['Store/Props_C08.v'], ['Store', 'gen', 'Common'], model_targets=['Store/Run.vo'])
@@ -62,7 +65,7 @@ def run(ck):
             ck.count(summary['evaluations'])
             ck.cov['input_distribution'] = {k: summary[k] for k in (
                 'sequences', 'crash_points', 'ops', 'wrappers', 'interrupted', 'outcomes', 'gc_runs_after_crash',
-                'gc_deleted_after_crash', 'legacy_migrations', 'model_cases', 'gc_race_scenarios', 'gc_deleted_during_races')}
+                'gc_deleted_after_crash', 'legacy_migrations', 'model_cases', 'gc_race_scenarios', 'gc_deleted_during_races', 'gc_schedule_scenarios', 'gc_schedules', 'gc_schedules_exhaustive')}
             for f in summary['failures']:
                 ck.violation(f['class'], f['what'], True, {'failing_input': f})
             ck.ob('implementation: after a crash at each of %d points and a cold restart every key reads old-or-new in full, '
@@ -70,7 +73,7 @@ def run(ck):
                   summary['oracle_failures'] == 0, 'monitor', json.dumps(summary['failures'][:2])[:3000])
             ck.ob('crash exploration is not vacuous (crash points > 0, some leave the old and some the new value, GC reclaimed leftovers)',
                   summary['crash_points'] > 0 and summary['outcomes'].get('old', 0) > 0 and summary['outcomes'].get('new', 0) > 0
-                  and summary['gc_deleted_after_crash'] > 0 and summary['gc_race_scenarios'] > 0 and summary['gc_deleted_during_races'] > 0,
+                  and summary['gc_deleted_after_crash'] > 0 and summary['gc_race_scenarios'] > 0 and summary['gc_deleted_during_races'] > 0 and summary['gc_schedules'] > 0,
                   'monitor', json.dumps(summary['outcomes']))
             for pt in summary['nontrivial']:
                 ck.nontrivial(tuple(pt))
